@@ -285,12 +285,16 @@ def compute_slots(repo, col, rule: str, emit=("jaxedges", "rec_index", "external
     ex3 = expander(repo, fi3)
     r = ex3.returns[0] if ex3.returns else None
     ok = False
-    if r is not None and r.op == "comp":
+    if r is not None:
+        # a comprehension over zip(params, indices) or a list filled in a loop over it: one dictionary per pair
         z = T.find(r, lambda x: x.op == "call" and x.name == "zip")
         kvs = {k.args[0].name: k.args[1] for k in T.find_all(r, lambda x: x.op == "kv") if k.args[0].op == "const"}
+        el = lambda t, k: t.op == "item" and t.name == k and t.args[0].op == "elem" and t.args[0].args[0] is z or \
+            (t.op == "item" and t.name == k and t.args[0].op == "elem" and z is not None and t.args[0].args[0].key() == z.key())
         ok = z is not None and len(z.args) == 2 and z.args[0].op == "param" and z.args[1].op == "param" \
-            and "indices" in kvs and kvs["indices"].op == "item" and kvs["indices"].name == 1 \
-            and "val" in kvs and T.find(kvs["val"], lambda x: x.op == "item" and x.name == 0) is not None
+            and fi3.params.index(z.args[0].name) < fi3.params.index(z.args[1].name) \
+            and "indices" in kvs and el(kvs["indices"], 1) \
+            and "val" in kvs and T.find(kvs["val"], lambda x: el(x, 0)) is not None and T.find(kvs["val"], lambda x: el(x, 1)) is None
     col.check(ok, rule, fi3, "params_to_pstate zips values with their own index arrays",
               "entry k pairs params[k] with indices_set_by_trainables[k]",
               "params_to_pstate no longer pairs the k-th value with the k-th index array", node=fi3.node)
